@@ -490,6 +490,9 @@ func c08EnumLevelTypes(size, shard, nshards int, emit func(c07Case)) {
 		for _, hasOld := range []bool{true, false} {
 			for _, pl := range places {
 				for _, v := range odd {
+				// which of the other maps the proposed content leaves out altogether (a scan over the
+				// maps must not stop at an absent one)
+				for _, drop := range [][]string{nil, {"users"}, {"events"}, {"users", "events"}, {"users", "events", "notifications"}} {
 					idx++
 					if idx%nshards != shard {
 						continue
@@ -513,12 +516,18 @@ func c08EnumLevelTypes(size, shard, nshards int, emit func(c07Case)) {
 						}
 						nc = nc.with(pl.mapKey, m.with(pl.key, v))
 					}
+					for _, d := range drop {
+						if d != pl.mapKey {
+							nc = nc.without(d)
+						}
+					}
 					b := c07Build(r)
 					e := raEv{Type: "m.room.power_levels", Sender: sender, StateKey: raSK(""), Content: nc, Prev: []string{"$p:a.example"}}
 					if vtraits[version].Format == 2 {
 						e.Prev = []string{"$" + strings.Repeat("P", 43)}
 					}
 					emit(c07Finish(version, b, e))
+				}
 				}
 			}
 		}
